@@ -672,6 +672,7 @@ func init() {
 		// a first packet naming a live session of its user but an unknown proxy method is web traffic as well
 		jobs = append(jobs, vx.Job{Scenario: "auth.second", Params: vx.P("transport", "direct"), Weight: 3})
 		jobs = append(jobs, vx.Job{Scenario: "redir.realstate", Params: vx.P("wait", "12"), Weight: 6})
+		jobs = append(jobs, vx.Job{Scenario: "redir.tcp", Weight: 3})
 		jobs = append(jobs, vx.Job{Scenario: "redir.target", Params: vx.P("depth", map[bool]string{true: "3", false: "5"}[q]), Weight: 1})
 		return jobs
 	})
